@@ -65,6 +65,10 @@ func (u *unionFindFun) unifyFunctional(xs []ast.BaseTerm, ys []ast.BaseTerm) err
 		if xApply.Function != yApply.Function {
 			return fmt.Errorf("cannot unify %v and %v", xApply, yApply)
 		}
+		if len(xApply.Args) != len(yApply.Args) {
+			// Variadic type constructors such as fn:Union can have different numbers of arguments.
+			return fmt.Errorf("cannot unify %v and %v", xApply, yApply)
+		}
 		if err := u.unifyFunctional(xApply.Args, yApply.Args); err != nil {
 			return err
 		}
